@@ -53,9 +53,12 @@ fn elem_domain(kind: usize) -> Vec<Val> {
     match kind {
         0 => vec![Val::I(1), Val::I(2), Val::I(3)],
         1 => vec![Val::S("a".into()), Val::S("b".into())],
-        _ => vec![Val::T(1, 2), Val::T(2, 1)],
+        2 => vec![Val::T(1, 2), Val::T(2, 1)],
+        // distinct strings that spell the same number
+        _ => vec![Val::S("1".into()), Val::S("01".into()), Val::S("1.0".into())],
     }
 }
+const KINDS: usize = 4;
 
 /// one list operation: source text (may print) and its effect on the model (pushes expected lines)
 #[derive(Clone)]
@@ -101,6 +104,26 @@ fn list_ops(kind: usize) -> Vec<Op> {
     ops.push(mk(format!("print(list.find(l, pu x -> x == {} end))", needle.src()), "find", std::sync::Arc::new(move |l, out| out.push(show_maybe(l.iter().find(|x| **x == n3))))));
     let n4 = needle.clone();
     ops.push(mk(format!("print(filter(l, pu x -> x != {} end))", needle.src()), "filter", std::sync::Arc::new(move |l, out| out.push(show_list(&l.iter().filter(|x| **x != n4).cloned().collect::<Vec<_>>())))));
+    // higher-order functions re-entered from their own callbacks: how often each element occurs, and the elements
+    // that occur at least twice (filter inside map / filter, fold inside both)
+    ops.push(mk("do\n        ll :: l\n        print(map(ll, pu x -> fold(filter(ll, pu y -> y == x end), 0, pu y, acc -> acc + 1 end) end))\n    end".into(), "map(fold(filter))", std::sync::Arc::new(|l, out| {
+        out.push(format!("[{}]", l.iter().map(|x| format!("{}", l.iter().filter(|y| *y == x).count())).collect::<Vec<_>>().join(", ")));
+    })));
+    ops.push(mk("do\n        ll :: l\n        print(filter(ll, pu x -> fold(filter(ll, pu y -> y == x end), 0, pu y, acc -> acc + 1 end) >= 2 end))\n    end".into(), "filter(fold(filter))", std::sync::Arc::new(|l, out| {
+        out.push(show_list(&l.iter().filter(|x| l.iter().filter(|y| y == x).count() >= 2).cloned().collect::<Vec<_>>()));
+    })));
+    if kind == 0 {
+        ops.push(mk("do\n        ll :: l\n        print(map(ll, pu x -> fold(map(ll, pu y -> y * x end), 0, pu y, acc -> acc + y end) end))\n    end".into(), "map(fold(map))", std::sync::Arc::new(|l, out| {
+            let ints: Vec<i64> = l.iter().map(|x| if let Val::I(i) = x { *i } else { 0 }).collect();
+            let sum: i64 = ints.iter().sum();
+            out.push(format!("[{}]", ints.iter().map(|x| format!("{}", x * sum)).collect::<Vec<_>>().join(", ")));
+        })));
+        ops.push(mk("do\n        ll :: l\n        print(fold(ll, 0, pu x, acc -> acc + fold(ll, 0, pu y, inner -> inner + y * x end) end))\n    end".into(), "fold(fold)", std::sync::Arc::new(|l, out| {
+            let ints: Vec<i64> = l.iter().map(|x| if let Val::I(i) = x { *i } else { 0 }).collect();
+            let sum: i64 = ints.iter().sum();
+            out.push(format!("{}", sum * sum));
+        })));
+    }
     match kind {
         0 => {
             ops.push(mk("print(map(l, pu x -> x * 10 end))".into(), "map", std::sync::Arc::new(|l, out| out.push(show_list(&l.iter().map(|x| if let Val::I(i) = x { Val::I(i * 10) } else { x.clone() }).collect::<Vec<_>>())))));
@@ -114,7 +137,7 @@ fn list_ops(kind: usize) -> Vec<Op> {
                 out.push(format!("{}", acc));
             })));
         }
-        1 => {
+        1 | 3 => {
             ops.push(mk("print(map(l, pu x -> x + \"!\" end))".into(), "map", std::sync::Arc::new(|l, out| out.push(show_list(&l.iter().map(|x| if let Val::S(s) = x { Val::S(format!("{}!", s)) } else { x.clone() }).collect::<Vec<_>>())))));
             ops.push(mk("print(fold(l, \"\", pu x, acc -> acc + x end))".into(), "fold", std::sync::Arc::new(|l, out| out.push(l.iter().map(|x| x.show()).collect::<String>()))));
         }
@@ -207,7 +230,7 @@ struct History {
 }
 
 fn list_histories(max_len: usize, out: &mut Vec<History>) {
-    for kind in 0..3 {
+    for kind in 0..KINDS {
         let ops = list_ops(kind);
         let dom = elem_domain(kind);
         let ty = dom[0].ty();
@@ -239,7 +262,7 @@ fn list_histories(max_len: usize, out: &mut Vec<History>) {
 }
 
 fn keyed_histories(max_len: usize, out: &mut Vec<History>) {
-    for kind in 0..3 {
+    for kind in 0..KINDS {
         let keys = elem_domain(kind);
         let kty = keys[0].ty();
         for (cname, ops, decl_new, decl_from) in [
@@ -474,7 +497,7 @@ pub fn run(run: &mut Run) {
         }
     });
     run.stats = Stats::merge_all(accs);
-    run.rule = "every history of up to n operations (each with every argument of its small domain) on lists, dicts and sets with int, str and tuple elements/keys, starting from the empty and from a two-element container, each step printing its result and the final container printed (lists) or probed for every key (dicts, sets); the math helpers on {-2..2} and {-1.5, 0.0, 2.5}; the Maybe helpers on Just/None; every Maybe produced by the library also compared with == against the source literal; distinct by history text; every history is non-trivial".into();
+    run.rule = "every history of up to n operations (each with every argument of its small domain) on lists, dicts and sets with int, str, tuple and numeric-looking str (\"1\", \"01\", \"1.0\") elements/keys, including higher-order list functions re-entered from their own callbacks (filter inside map / filter, fold inside fold, map inside map), starting from the empty and from a two-element container, each step printing its result and the final container printed (lists) or probed for every key (dicts, sets); the math helpers on {-2..2} and {-1.5, 0.0, 2.5}; the Maybe helpers on Just/None; every Maybe produced by the library also compared with == against the source literal; distinct by history text; every history is non-trivial".into();
     run.bounds = json!({"max_history_len": max_len, "histories": hs.len(), "batch": batch});
     run.assumptions = vec![
         "models: Vec / BTreeMap / Option; numeric helper results are compared by value where the representation (1 vs 1.0) is not fixed by the statement".into(),
